@@ -84,7 +84,8 @@ def canon_inters(idict):
     out = []
     for sect in sorted(idict):
         for it in idict[sect]:
-            out.append([sect, [str(a) for a in it.atoms], [canon_param(p) for p in it.parameters]])
+            out.append([sect, [str(a) for a in it.atoms], [canon_param(p) for p in it.parameters],
+                        canon_attrs(it.meta)])
     return out
 
 
@@ -488,10 +489,30 @@ class Gen:
             return ps, ps[:-1] + self.macros[name].split()
         return ps, list(ps)
 
-    def maybe_meta(self):
-        if self.rng.random() < 0.15:
-            return [json.dumps({'comment': 'c%d' % self.rng.randint(0, 9)})]
-        return []
+    META_VALUES = {'version': [1, 2, 3], 'group': ['g', 'h', 'bb'], 'comment': ['c0', 'c1', 'c2'], 'ifdef': ['FLEX', 'X']}
+
+    def meta_line(self, store, sect):
+        """a `#meta {...}` line: attributes for every later interaction line of this section of the context"""
+        r = self.rng
+        d = {k: r.choice(self.META_VALUES[k]) for k in r.sample(sorted(self.META_VALUES), r.randint(1, 2))}
+        self.emit('#meta ' + json.dumps(d))
+        store.setdefault(sect, {}).update(d)
+
+    def own_meta(self, store, sect):
+        """the trailing dictionary of one interaction line; it often repeats a key of the section-wide
+        `#meta` with a DIFFERENT value: the line's own value is what the line declares"""
+        r = self.rng
+        if r.random() > 0.4:
+            return [], dict(store.get(sect, {}))
+        own = {}
+        cur = store.get(sect, {})
+        if cur and r.random() < 0.75:
+            k = r.choice(sorted(cur))
+            own[k] = r.choice([v for v in self.META_VALUES[k] if v != cur[k]])
+        if not own or r.random() < 0.4:
+            k = r.choice(sorted(self.META_VALUES))
+            own.setdefault(k, r.choice(self.META_VALUES[k]))
+        return [json.dumps(own)], {**cur, **own}
 
     # ---- sections -------------------------------------------------------------------------
     def macros_section(self):
@@ -537,22 +558,26 @@ class Gen:
                 cols.append(json.dumps({'element': 'C'}))
             self.emit(' '.join(cols), blockatom=a, block=name)
         inters = []
+        secmeta = {}
         for _ in range(r.randint(0, 4)):
             sect = r.choice(BLOCK_SECTIONS)
             n = NATOMS.get(sect)
             self.header(sect)
-            if r.random() < 0.12:
-                self.emit('#meta ' + json.dumps({'group': 'g'}))
+            if r.random() < 0.4:
+                self.meta_line(secmeta, sect)
             for _ in range(r.randint(1, 3)):
+                if r.random() < 0.1:
+                    self.meta_line(secmeta, sect)
                 k = n if n is not None else r.randint(1, 3)
                 chosen = [r.choice(atoms) for _ in range(k)]
                 refs = [str(atoms.index(a) + 1) if r.random() < 0.4 else a for a in chosen]
                 written, expected = self.params(sect)
                 delim = ['--'] if (n is None or r.random() < 0.3) else []
-                self.emit(' '.join(refs + delim + written + self.maybe_meta()),
+                mtoks, mexp = self.own_meta(secmeta, sect)
+                self.emit(' '.join(refs + delim + written + mtoks),
                           blockinter=sect, natoms=n, nref=k, block=name, natoms_block=len(atoms), delim=bool(delim))
                 out_sect = 'impropers' if (sect == 'dihedrals' and expected and expected[0] == '2') else sect
-                inters.append([out_sect, chosen, expected])
+                inters.append([out_sect, chosen, expected, canon_attrs(mexp)])
         if self.rich and r.random() < 0.3:
             self.header('citation')
             self.emit('ref%d' % r.randint(0, 5))
@@ -593,6 +618,7 @@ class Gen:
         self.serial += 1
         nodes = collections.OrderedDict()    # key -> attrs expected
         inters, removed = [], []
+        secmeta = {}
         all_nodes = {}
         name = None
         if kind == 'link':
@@ -691,9 +717,11 @@ class Gen:
                 sect = r.choice(LINK_SECTIONS)
                 n = NATOMS.get(sect)
                 self.header(('!' if delete else '') + sect)
-                if r.random() < 0.1:
-                    self.emit('#meta ' + json.dumps({'group': 'g'}))
+                if r.random() < 0.4:
+                    self.meta_line(secmeta, sect)
                 for _ in range(r.randint(1, 3)):
+                    if r.random() < 0.1:
+                        self.meta_line(secmeta, sect)
                     kk = n if n is not None else r.randint(1, 3)
                     chosen = [r.choice(abstract) for _ in range(kk)]
                     texts, keys = [], []
@@ -708,11 +736,12 @@ class Gen:
                                         'dihphase(A,B,C,D)', 'dist(BB,SC1|.3f)'])
                         written, expected = written + [eff], expected + [eff]
                     delim = ['--'] if (n is None or r.random() < 0.4) else []
-                    self.emit(' '.join(texts + delim + written + self.maybe_meta()),
+                    mtoks, mexp = self.own_meta(secmeta, sect)
+                    self.emit(' '.join(texts + delim + written + mtoks),
                               linkinter=sect, natoms=n, nref=kk, delim=bool(delim))
                     out_sect = 'impropers' if (sect == 'dihedrals' and not delete and expected
                                                and expected[0] == '2') else sect
-                    (removed if delete else inters).append([out_sect, keys, expected])
+                    (removed if delete else inters).append([out_sect, keys, expected, canon_attrs(mexp)])
         exp_nodes = [[k, canon_attrs(v)] for k, v in nodes.items()]
         if kind == 'link':
             self.links.append([exp_nodes, inters, removed])
@@ -1235,8 +1264,19 @@ def run_itp():
             elif k < 0.6:
                 j = [q for q, t in enumerate(bad) if t.startswith('[ atoms ]')][0]
                 bad.insert(j + 2, bad[j + 1])
-            elif k < 0.8:
+            elif k < 0.65:
                 bad += ['[ bonds ]', rng.choice(['0 1 1', '1 99 1', 'BB 1 1'])]
+            elif k < 0.85:
+                # too few tokens for the arity of a fixed-arity section, in the first or in a later moleculetype
+                short = rng.choice([('bonds', '1'), ('angles', '1 2'), ('dihedrals', '1 2 1'), ('constraints', '2'),
+                                    ('pairs', '1'), ('virtual_sites2', '1 2'), ('virtual_sites3', '1 2 1'),
+                                    ('angles', '2'), ('distance_restraints', '1'), ('orientation_restraints', '2')])
+                clean = [t for t in bad if not t.startswith('#')]
+                mts = [q for q, t in enumerate(clean) if t == '[ moleculetype ]']
+                which = rng.randrange(len(mts))
+                end = mts[which + 1] if which + 1 < len(mts) else len(clean)
+                bad = clean[:end] + ['[ %s ]' % short[0], short[1]] + clean[end:]
+                chk.count('itp_fault_arity_block%d' % min(which, 2))
             else:
                 # pragma faults: #endif without #ifdef, nested / unclosed #ifdef, #else alone, unknown pragma
                 clean = [t for t in bad if not t.startswith('#')]
@@ -1246,6 +1286,9 @@ def run_itp():
                 j = rng.randint(0, len(clean))
                 bad = clean[:j] + pr[:1] + clean[j:] + pr[1:]
             cases.append(('itp-%d-fault' % i, bad, None))
+    # F-C13-10 (reported, not fixed): sections whose atoms are given by a slice accept too few atoms
+    cases.append(('itp-quirk-F-C13-10', ['[ moleculetype ]', 'M 1', '[ atoms ]', '1 P 1 M A 1', '2 P 1 M B 2',
+                                         '[ dihedral_restraints ]', '1 2 1'], 'quirk'))
     lines = [line('itp', ls) for _, ls, _ in cases]
     for (cid, ls, exp), ln, mo in zip(cases, lines, ask(lines)):
         ff = ForceField(name='verif')
@@ -1256,7 +1299,15 @@ def run_itp():
             im = enc(got)
         except Exception as e:
             got, im = None, 'error'
-        if exp is None:
+        if exp == 'quirk':
+            what = ('a [ dihedral_restraints ] / [ angle_restraints ] / [ virtual_sites4 ] line of an .itp with fewer '
+                    'atoms than the arity is loaded as a shorter interaction (atoms taken by a slice): ' + clip(im, 200))
+            if 'F-C13-10' in KNOWN_IDS:
+                chk.case(cid, ln, im, mo, [what] if got is not None else [], True, finding='F-C13-10')
+                continue
+            if got is not None:
+                pending('F-C13-10', cid, what)
+        elif exp is None:
             if got is not None:
                 errs.append('malformed .itp loaded instead of rejected')
             chk.count('itp_fault_' + ('rejected' if got is None else 'ACCEPTED'))
@@ -1264,7 +1315,7 @@ def run_itp():
             errs.append('well-formed .itp rejected')
         elif got != exp:
             errs.append('.itp blocks loaded %s, declared %s' % (clip(got, 300), clip(exp, 300)))
-        chk.case(cid, ln, im, mo, errs, exp is None or len(exp) >= 2)
+        chk.case(cid, ln, im, mo, errs, exp is None or exp == 'quirk' or len(exp) >= 2)
 
 
 # ----------------------------------------------------------------------------------------------
